@@ -22,12 +22,22 @@ class ConcFamily(Family):
 
     def harness_line(self, c):
         s = "%s %s %d %s" % (c["id"], self.system, c["max"], "|".join(";".join(t) for t in c["threads"]))
+        if c.get("post"):
+            s += " post=" + ";".join(c["post"])
+        if c.get("pre"):
+            s += " pre=" + ";".join(c["pre"])
+        if c.get("hold"):
+            s += " hold=1"
         if c.get("sched") is not None:
             s += " sched=" + c["sched"]
         return s
 
     def driver_line(self, c, impl_obs):
         s = "%s %s %d %s" % (c["id"], self.system, c["max"], "|".join(";".join(t) for t in c["threads"]))
+        if c.get("post"):
+            s += " post=" + ";".join(c["post"])
+        if c.get("pre"):
+            s += " pre=" + ";".join(c["pre"])
         if impl_obs is not None:
             s += " obs=" + impl_obs.replace(" ", ";")
         return s
@@ -41,7 +51,7 @@ class ConcFamily(Family):
         return "~".join(outs) + ("" if shape == "ok" else "!" + shape)
 
     def sample(self, c):
-        return {"system": self.system, "threads": c["threads"], "max_schedules": c["max"], "schedule": c.get("sched")}
+        return {"system": self.system, "threads": c["threads"], "before": c.get("pre"), "afterwards": c.get("post"), "free_running_with_stalled_write": bool(c.get("hold")), "max_schedules": c["max"], "schedule": c.get("sched")}
 
     def signature(self, c, rec):
         return "%s|%s" % (c["threads"], rec.get("ispec"))
@@ -82,8 +92,47 @@ class ConcFamily(Family):
         ]
         for th in base:
             cs.append({"threads": th, "max": 2500 if tier == "quick" else 30000})
+        # the same races with the hidden state made visible afterwards: once all threads are done the session's next
+        # record and its login (again) are delivered sequentially — whatever the race left behind (a session that was
+        # never opened, a login that was dropped, a hold queue that was lost) then shows in what is emitted
+        post1 = [A(105, "1", "o", "77"), L(77, "alice", tag="5"), A(106, "1", "d", "77")]
+        with_post = [
+            [[L(77, "alice", tag="5")], [A(100, "1", "l", "77")], ["R:f"]],
+            [[L(77, "alice", tag="5")], [A(100, "1", "l", "77"), A(101, "1", "o", "77")], ["S:f"]],
+            [[L(77, "alice", tag="5")], [A(100, "1", "l", "77")], ["R:f", "S:f"]],
+            [[L(77, "alice", tag="5"), A(100, "1", "l", "77")], ["R:f"], ["S:f"]],
+            [[A(100, "1", "l", "77"), A(101, "1", "o", "77")], [L(77, "alice", tag="5")], ["S:f", "R:f"]],
+        ]
+        for th in with_post:
+            cs.append({"threads": th, "post": post1, "max": 2500 if tier == "quick" else 30000})
+        # free-running (no controlled scheduler): thread 0's first event write stalls (slow output) while the other
+        # threads deliver; an operation that gives up instead of waiting for the tracker, or slips past it, leaves
+        # a state no sequential order produces — made visible by the deliveries afterwards
+        cs += self.hold_cases(tier)
         n = 12 if tier == "quick" else 60
         for _ in range(n):
+            self._random_program(cs, tier, rng)
+        return cs
+
+    def hold_cases(self, tier):
+        cs = []
+        carol = L(88, "carol", tag="8")
+        t0 = [L(77, "alice", tag="5"), A(100, "1", "l", "77"), A(101, "1", "o", "77")]
+        post2 = [A(200, "2", "l", "88"), A(201, "2", "o", "88"), A(102, "1", "d", "77")]
+        holds = [
+            dict(pre=[carol], threads=[t0, ["R:f"]], post=post2),
+            dict(pre=[A(200, "2", "l", "88")], threads=[t0, ["S:f"]], post=[carol, A(201, "2", "o", "88")]),
+            dict(pre=[carol, A(300, "3", "l", "99")], threads=[t0, ["R:f", "S:f"]], post=post2 + [L(99, "dave", tag="9"), A(301, "3", "o", "99")]),
+            dict(pre=[], threads=[t0, [carol, A(200, "2", "l", "88")], ["S:f"]], post=[A(201, "2", "o", "88")]),
+            dict(pre=[carol], threads=[t0, [A(200, "2", "l", "88")], ["R:f"]], post=[A(201, "2", "o", "88")]),
+        ]
+        for hcase in holds:
+            for rep in range(2 if tier == "quick" else 6):
+                cs.append(dict(hcase, hold=True, max=1, rep=rep))
+        return cs
+
+    def _random_program(self, cs, tier, rng):
+        if True:
             nth = 2 + rng.below(2)
             pool = []
             pids = [77, 88]
@@ -105,8 +154,10 @@ class ConcFamily(Family):
                     total += 1
             th = [t for t in rng_threads if t]
             if len(th) >= 2:
-                cs.append({"threads": th, "max": 800 if tier == "quick" else 5000})
-        return cs
+                c = {"threads": th, "max": 800 if tier == "quick" else 5000}
+                if rng.below(2):
+                    c["post"] = [A(150, "1", "o", "77"), L(77, "u77", tag="77"), A(250, "2", "o", "88"), L(88, "u88", tag="88")]
+                cs.append(c)
 
     def health_cases(self, tier, rng):
         cs = []
